@@ -27,3 +27,69 @@ M('gen-conv-test-le', 'C02', 'convergence-test-shape',
   [('GenEigsBase.h', 'Array thresh = tol * m_ritz_val.head(m_nev).array().abs().max(eps23);', 'Array thresh = tol * m_ritz_val.head(m_nev).array().abs().max(Scalar(1));')])
 M('herm-retrieve-est-wrong-row', 'C01', 'coherent-retrieve',
   [('HermEigsBase.h', 'm_ritz_est[i] = evecs(m_ncv - 1, ind[i]);', 'm_ritz_est[i] = evecs(m_ncv - 1, i);')])
+M('symshift-sort-before-backtransform', 'C01', 'backtransform-then-base-sort',
+  [('SymEigsShiftSolver.h', '''        m_ritz_val.head(m_nev).array() = Scalar(1) / m_ritz_val.head(m_nev).array() + m_sigma;
+        Base::sort_ritzpair(sort_rule);''', '''        Base::sort_ritzpair(sort_rule);
+        m_ritz_val.head(m_nev).array() = Scalar(1) / m_ritz_val.head(m_nev).array() + m_sigma;''')],
+  'values reported in the order of the transformed spectrum')
+M('genrealshift-transform-all-ncv', 'C02', 'backtransform-then-base-sort',
+  [('GenEigsRealShiftSolver.h', 'm_ritz_val.head(m_nev) = Scalar(1) / m_ritz_val.head(m_nev).array() + m_sigma;',
+    'm_ritz_val.head(m_nev - 1) = Scalar(1) / m_ritz_val.head(m_nev - 1).array() + m_sigma;')],
+  'last wanted eigenvalue stays in the transformed spectrum')
+M('arnoldi-expand-basis-uncounted', 'C05', 'op-application-counted',
+  [('LinAlg/Arnoldi.h', '''                m_op.perform_op(v.data(), f.data());
+                op_counter++;''', '''                m_op.perform_op(v.data(), f.data());''')],
+  'num_operations() misses the applications made when the basis breaks down')
+M('herm-init-keeps-opcount', 'C05', 'counter-identity',
+  [('HermEigsBase.h', '''        m_nmatop = 0;
+        m_niter = 0;
+
+        // Initialize the Lanczos''', '''        m_niter = 0;
+
+        // Initialize the Lanczos''')],
+  'operation count accumulates across init() calls')
+M('gen-eigenvectors-no-clamp', 'C05', 'accessor-agreement',
+  [('GenEigsBase.h', '''        nvec = (std::min)(nvec, nconv);
+        ComplexMatrix res(m_n, nvec);''', '''        ComplexMatrix res(m_n, nvec);''')])
+M('herm-status-strict', 'C05', 'exit-status-and-count',
+  [('HermEigsBase.h', 'm_info = (nconv >= m_nev) ? CompInfo::Successful : CompInfo::NotConverging;', 'm_info = (nconv > m_nev) ? CompInfo::Successful : CompInfo::NotConverging;')])
+M('gen-return-count-plus-one', 'C05', 'exit-status-and-count',
+  [('GenEigsBase.h', 'return (std::min)(m_nev, nconv);', 'return (std::min)(m_nev, nconv + 1);')])
+M('herm-ctor-status-successful', 'C05', 'initial-state',
+  [('HermEigsBase.h', '''        m_fac(ArnoldiOpType(op, Bop), m_ncv),
+        m_info(CompInfo::NotComputed)''', '''        m_fac(ArnoldiOpType(op, Bop), m_ncv),
+        m_info(CompInfo::NotConverging)''')])
+M('gen-sort-gets-selection', 'C05', 'rule-argument-flow',
+  [('GenEigsBase.h', '        sort_ritzpair(sorting);', '        sort_ritzpair(selection);')])
+M('herm-eigenvalues-skips-flag', 'C05', 'accessor-agreement',
+  [('HermEigsBase.h', '''            if (m_ritz_conv[i])
+            {
+                res[j] = m_ritz_val[i];
+                j++;
+            }''', '''            if (j < nconv)
+            {
+                res[j] = m_ritz_val[i];
+                j++;
+            }''')],
+  'returns the first count values instead of the flagged ones')
+M('herm-restart-twice', 'C05', 'restarts-bounded-by-maxit',
+  [('HermEigsBase.h', '''            restart(nev_adj, selection);
+        }''', '''            restart(nev_adj, selection);
+            if (nconv == 0 && i > 2)
+                restart(nev_adj, selection);
+        }''')], 'still one loop: two restarts per iteration -> more than maxit restarts')
+
+# behaviour-preserving edits: every listed check must stay silent (exit 0)
+NEUTRAL = []
+
+
+def N(name, props, edits, note=''):
+    NEUTRAL.append({'name': name, 'props': props.split(','), 'edits': edits, 'note': note})
+
+
+N('gen-return-unclamped', 'C05', [('GenEigsBase.h', 'return (std::min)(m_nev, nconv);', 'return nconv;')],
+  'count <= nev always: same value')
+N('herm-refresh-under-if', 'C01,C05', [('HermEigsBase.h', """        nconv = num_converged(tol);
+        // Sorting results""", """        if (i >= maxit)
+            nconv = num_converged(tol);
+        // Sorting results""")], 'F1 written conditionally: after break the flags are already fresh (needs FEAS)')
